@@ -255,8 +255,121 @@ def check_tree(t, R, atoms, viols, depth_label):
     return o, tuple(table)
 
 
+# ---------------------------------------------------------------- hooks on constructor calls of real encodings
+HOOK_VIOLS = []
+
+
+def _atoms_of(o, R, acc):
+    if type(o) is R["ExpressionReference"]:
+        acc[str(o)] = o.type
+    elif type(o) is R["Connector"]:
+        for a in o.arguments:
+            _atoms_of(a, R, acc)
+
+
+def _eval_general(o, val, R):
+    if type(o) is bool or type(o) is int:
+        return o
+    if type(o) is R["ExpressionReference"]:
+        return val[str(o)]
+    name = o.connector_name
+    args = [_eval_general(a, val, R) for a in o.arguments]
+    if name == "and":
+        return all(args)
+    if name == "or":
+        return any(args)
+    if name == "not":
+        return not args[0]
+    if name == "=>":
+        return (not args[0]) or args[1]
+    if name == "=":
+        return type(args[0]) is type(args[1]) and args[0] == args[1]
+    if name == "<":
+        return args[0] < args[1]
+    if name == "<=":
+        return args[0] <= args[1]
+    if name == "distinct":
+        return len(set(args)) == len(args)
+    raise ValueError(name)
+
+
+def install_constructor_hooks():
+    """post-condition on add_and/or/not/implies/eq/lt/leq/distinct: the returned (simplified) formula has the
+    truth value of the unsimplified connector over the same arguments, under random valuations of the atoms"""
+    import sys
+    R = setup()
+    cf = R["cf"]
+    rnd = random.Random(99)
+    names = {"add_and": "and", "add_or": "or", "add_not": "not", "add_implies": "=>", "add_eq": "=", "add_lt": "<",
+             "add_leq": "<=", "add_distinct": "distinct"}
+    for fname, conn in names.items():
+        orig = getattr(cf, fname)
+
+        def make(orig, conn, fname):
+            def hooked(*args):
+                res = orig(*args)
+                _count("constructor_calls_observed")
+                try:
+                    if len(args) == 0:
+                        return res
+                    raw = R["Connector"](conn, conn in ("and", "or", "not", "=", "distinct"), *args)
+                    atoms = {}
+                    _atoms_of(raw, R, atoms)
+                    for _ in range(6):
+                        val = {}
+                        for a, sort in atoms.items():
+                            val[a] = rnd.random() < 0.5 if sort == R["Sort"].boolean else rnd.randrange(0, 4)
+                        if _eval_general(res, val, R) != _eval_general(raw, val, R):
+                            if len(HOOK_VIOLS) < 10:
+                                HOOK_VIOLS.append({"fingerprint": "constructor %s changes the truth value on a real encoding" % fname,
+                                                   "witness": {"args": [str(a)[:120] for a in args][:6], "result": str(res)[:200]}})
+                            break
+                    _count("constructor_calls_checked")
+                except Exception as e:
+                    _count("constructor_hook_internal_error")
+                return res
+            return hooked
+        h = make(orig, conn, fname)
+        for mod in list(sys.modules.values()):
+            d = getattr(mod, "__dict__", None)
+            if not d or not str(getattr(mod, "__file__", "")).startswith("/repo"):
+                continue
+            for k, v in list(d.items()):
+                if v is orig:
+                    d[k] = h
+
+
+def handle_encodings(case):
+    """run the real encoder on small blocks with the constructor hooks installed"""
+    from vlib import drive
+    from monitors import c01, c03, c06
+    drive.setup()
+    params = c01.params_for(case["opts"])
+    import smt_encoding.block_optimizer  # noqa: F401  (make sure encoder modules are loaded before rebinding)
+    if not getattr(handle_encodings, "_installed", False):
+        install_constructor_hooks()
+        handle_encodings._installed = True
+    rnd = random.Random(case["sseed"])
+    from vlib import gen
+    for _ in range(case["n"]):
+        b, _k = gen.gen_block(rnd, "short")
+        specs, exc = c03.front_end(b[:6], case["opts"])
+        for key, S, seg in specs:
+            if 0 < S["init_progr_len"] <= 6 and S["max_sk_sz"] <= 8:
+                try:
+                    c06.encode(key, S, params)
+                    _count("encodings_generated")
+                except Exception:
+                    _count("encoder_exceptions")
+    drive.clean_scratch()
+
+
 def handle(case):
     COUNTS.clear()
+    if case["kind"] == "encodings":
+        del HOOK_VIOLS[:]
+        handle_encodings(case)
+        return {"viols": list(HOOK_VIOLS), "counts": dict(COUNTS)}
     R = setup()
     atoms = {n: R["Const"](n, R["Sort"].boolean) for n in BOOL_ATOMS}
     atoms.update({n: R["Const"](n, R["Sort"].integer) for n in INT_ATOMS})
@@ -338,10 +451,17 @@ def run():
         c["idx"] = i
         c["_group"] = "c18"
         c["opts"] = []
+    enc_opts = [["-solver", "z3"], ["-solver", "z3", "-term-encoding", "int", "-empty"],
+                ["-solver", "oms", "-memory-encoding", "l_vars", "-term-encoding", "stack_vars"],
+                ["-solver", "z3", "-at-most", "-pushed-once", "-size"]]
+    for i, o in enumerate(enc_opts):
+        for k in range(2 if quick else 12):
+            cases.append({"kind": "encodings", "opts": o, "_group": "enc " + " ".join(o), "sseed": rnd.getrandbits(30),
+                          "n": 15, "idx": len(cases)})
     col = common.Collector(r)
     st = common.run_pool("monitors.c18:handle", cases, col, cpu_budget=600.0)
     c = col.counts
-    for need in ("trees_depth1", "trees_depth2", "valuations", "pairs", "pairs_structurally_equal"):
+    for need in ("trees_depth1", "trees_depth2", "valuations", "pairs", "pairs_structurally_equal", "constructor_calls_checked"):
         if c.get(need, 0) == 0:
             r.inconclusive.append("!never reached: " + need)
     exhaustive2 = not quick and c.get("trees_depth2", 0) > 0
@@ -353,6 +473,9 @@ def run():
                        "valuations_evaluated": c.get("valuations", 0), "valuations_per_tree": len(VALS),
                        "ordered_pairs_compared_with_eq": c.get("pairs", 0),
                        "pairs_structurally_equal": c.get("pairs_structurally_equal", 0),
+                       "constructor_calls_observed_in_real_encodings": c.get("constructor_calls_observed", 0),
+                       "constructor_calls_checked_in_real_encodings": c.get("constructor_calls_checked", 0),
+                       "real_encodings_generated": c.get("encodings_generated", 0),
                        "exhaustive": exhaustive2, "pool": st})
     r.assumptions = ["Bool and Int are disjoint sorts: (= true 1) is false (tests/test_connectors.py::test_eq_bool_int fixes True,3)",
                      "atoms: 2 boolean constants, 2 integer constants with domain {0,1,2}; literals true/false/0/1/2",
